@@ -7,7 +7,8 @@ HOOK_COMMITS = [l.split()[0] for l in HOOK_COMMITS if l.split(" ", 1)[1].startsw
 
 ORACLE_NOTE = ("Trusted base: the harness's independent rules oracle (validated against published perft totals and "
                "hand-written rule cases at the start of every run), rustc, and the #[path] inclusion of /repo/src/*.rs "
-               "(same source files, harness profile with overflow-checks + debug-assertions). Holds only on the executions observed.")
+               "(same source files, harness profile with overflow-checks + debug-assertions; the in-process part runs a second, shadow time at quick volume "
+               "on a build of the harness with the shipped profile - no debug assertions, wrapping arithmetic - and its observations are merged). Holds only on the executions observed.")
 
 CHECKS = {
  "C01": dict(cat="exploration", tech="differential reference-model monitor over generated, synthesised and systematically enumerated positions",
